@@ -1,5 +1,7 @@
 import Ark.Model.Serial
 import Ark.Model.Proto
+import Ark.Model.NatSpec
+import Ark.Model.Sha256
 /-
   Driver dispatch for C18 (containers / wrappers / derived structs of ark-serialize).
 
@@ -21,6 +23,14 @@ import Ark.Model.Proto
           z  huge length prefix on a container of zero-width elements         (no class expectation)
         whatever the tag: never panic / abort / hang, `ok` only if the returned value re-encodes to the
         consumed bytes (for types with a unique encoding), every allocation bounded by the input.
+
+  A type token `P<p hex>.<kind>.<ty>` names a type of `ark-poly` (or a container of such) over the prime
+  field `F_p`: `<ty>` in the universe `Ark.Serial.Poly.PTy` (leaf `fp`, `gdom(R,M)` = `GeneralEvaluationDomain`),
+  `<kind>` selects the well-formedness predicate of the executable spec (`wfKind`): dense, sparse, term,
+  mvsparse, dext, sext, r2dom, mrdom, gdom, evals (`fp`, `-`: none).  Additional tag of `de` lines:
+          w  decodes to a value violating an invariant of its type  ⇒ under `Validate::Yes` it must be refused
+             (`bad:illformed-accepted:<invariant>`); under `Validate::No` accepting it is a `note:`
+  Further ops (harness/src/bin/c18.rs): chk, bchk, hash, cser, cde, wfail, rfail, tovec, bbs, puse.
 
   Resource limits of the harness' child process (`c18.rs`: `ulimit -v 1048576`, 0.4 s watchdog) are
   mirrored by `limits`.  An allocation total in (mem/2, mem] may or may not be refused by the real
@@ -204,37 +214,342 @@ def tyName : Ty → String
   | .slice _ => "slice" | .str => "str" | .big => "big" | .map _ _ => "map" | .set _ => "set"
   | .wrap _ _ => "wrap" | .pin _ _ => "pin" | .struct _ => "st"
 
+/-! ### generic type syntax (for the `P…` tokens) -/
+
+inductive Tree
+  | node (name : String) (hasArgs : Bool) (args : List Tree)
+  deriving Inhabited
+
+mutual
+def parseTreeC : Nat → List Char → Option (Tree × List Char)
+  | 0, _ => none
+  | f + 1, cs =>
+    let name := String.ofList (cs.takeWhile Char.isAlphanum)
+    let rest := cs.dropWhile Char.isAlphanum
+    match rest with
+    | '(' :: r =>
+      match parseTreeArgs f r with
+      | some (args, r') => some (.node name true args, r')
+      | none => none
+    | _ => if name.isEmpty then none else some (.node name false [], rest)
+def parseTreeArgs : Nat → List Char → Option (List Tree × List Char)
+  | 0, _ => none
+  | _ + 1, ')' :: r => some ([], r)
+  | f + 1, cs =>
+    match parseTreeC f cs with
+    | some (t, ',' :: r) => (parseTreeArgs f r).map (fun (ts, r') => (t :: ts, r'))
+    | some (t, ')' :: r) => some ([t], r)
+    | _ => none
+end
+
+mutual
+def treeTy : Tree → Option Ty
+  | .node n false _ => mkTy n none
+  | .node n true as => (treeTys as).bind (fun ts => mkTy n (some ts))
+def treeTys : List Tree → Option (List Ty)
+  | [] => some []
+  | a :: as =>
+    match treeTy a, treeTys as with
+    | some t, some ts => some (t :: ts)
+    | _, _ => none
+end
+
+open Ark.Serial.Poly in
+mutual
+def treePTy : Tree → Option PTy
+  | .node "fp" false _ => some .fp
+  | .node "map" true [k, v] =>
+    match treePTy k, treePTy v with
+    | some a, some b => some (.map a b)
+    | _, _ => none
+  | .node "tup" true as => (treePTys as).map .tup
+  | .node "st" true as => (treePTys as).map .struct
+  | .node "gdom" true [r, m] =>
+    match treePTy r, treePTy m with
+    | some a, some b => some (.gdom a b)
+    | _, _ => none
+  | .node "opt" true [a] => (treePTy a).map .opt
+  | .node "arc" true [a] => (treePTy a).map .wrap
+  | .node "cow" true [a] => (treePTy a).map .wrap
+  | .node n true [a] =>
+    let cs := n.toList
+    match cs.take 3, parseHexChars (cs.drop 3) 0 with
+    | ['v', 'e', 'c'], some k =>
+      if cs.length > 3 then (treePTy a).map (.vec k) else none
+    | ['a', 'r', 'r'], some k =>
+      if cs.length > 3 then (treePTy a).map (.arr k) else none
+    | _, _ => (treeTy (.node n true [a])).map .old
+  | t => (treeTy t).map .old
+def treePTys : List Tree → Option (List PTy)
+  | [] => some []
+  | a :: as =>
+    match treePTy a, treePTys as with
+    | some t, some ts => some (t :: ts)
+    | _, _ => none
+end
+
+def parsePTy? (s : String) : Option Poly.PTy :=
+  let cs := s.toList
+  match parseTreeC (cs.length + 1) cs with
+  | some (t, []) => treePTy t
+  | _ => none
+
+/-! ### well-formedness of the `ark-poly` values (spec side; nothing of this is looked at by the code) -/
+
+def isZeroVal : Val → Bool
+  | .int i => i == 0
+  | .seq vs => vs.all (fun v => match v with | .int i => i == 0 | .seq ws => ws.all (fun w => match w with | .int j => j == 0 | _ => false) | _ => false)
+  | _ => false
+
+/-- strictly increasing first components of `[[i, _], …]` -/
+def strictlyIncreasing : List Int → Bool
+  | a :: b :: r => a < b && strictlyIncreasing (b :: r)
+  | _ => true
+
+def entryInt : Val → Option Int
+  | .seq (.int i :: _) => some i
+  | _ => none
+
+def entrySnd : Val → Option Val
+  | .seq [_, b] => some b
+  | _ => none
+
+/-- `v₂(n)` -/
+def twoAdicity : Nat → Nat → Nat
+  | 0, _ => 0
+  | f + 1, n => if n != 0 && n % 2 == 0 then 1 + twoAdicity f (n / 2) else 0
+
+def stripFactor : Nat → Nat → Nat → Nat
+  | 0, n, _ => n
+  | f + 1, n, q => if q > 1 && n != 0 && n % q == 0 then stripFactor f (n / q) q else n
+
+/-- least odd `q ≥ 3` below `bound` dividing `n` -/
+def leastOddFactor (n bound : Nat) : Option Nat :=
+  ((List.range bound).map (fun i => 2 * i + 3)).find? (fun q => n % q == 0)
+
+/-- a `Radix2EvaluationDomain` / `MixedRadixEvaluationDomain` as its constructors (`new`, `get_coset`) leave it -/
+def wfDomain (p : Nat) (mixed : Bool) (fs : List Val) : Option String :=
+  match fs with
+  | [.int size, .int log, .int sfe, .int sinv, .int g, .int ginv, .int off, .int offinv, .int offpow] =>
+    let size := size.toNat; let log := log.toNat; let sfe := sfe.toNat; let sinv := sinv.toNat
+    let g := g.toNat; let ginv := ginv.toNat; let off := off.toNat; let offinv := offinv.toNat; let offpow := offpow.toNat
+    let odd := stripFactor 64 size 2
+    let q := if odd == 1 then none else leastOddFactor odd 2048
+    let primes : List Nat := (if size % 2 == 0 then [2] else []) ++ (match q with | some q => [q] | none => [])
+    if size == 0 then some "size=0"
+    else if !mixed && (log ≥ 64 || size != 2 ^ log) then some "size≠2^log_size_of_group"
+    else if mixed && twoAdicity 64 size != log then some "log_size_of_group≠v2(size)"
+    else if mixed && odd != 1 && (match q with | some q => stripFactor 64 odd q != 1 | none => true) then some "size≠2^a·q^b"
+    else if sfe != size % p then some "size_as_field_element≠size"
+    else if sinv * sfe % p != 1 % p then some "size_inv·size≠1"
+    else if Spec.powMod g size p != 1 % p then some "group_gen^size≠1"
+    else if !(primes.all (fun r => Spec.powMod g (size / r) p != 1 % p)) then some "order(group_gen)<size"
+    else if g * ginv % p != 1 % p then some "group_gen_inv"
+    else if off == 0 then some "offset=0"
+    else if off * offinv % p != 1 % p then some "offset_inv"
+    else if Spec.powMod off size p != offpow then some "offset_pow_size≠offset^size"
+    else none
+  | _ => some "shape"
+
+def wfTerm (nv : Option Nat) : Val → Option String
+  | .seq [.seq es] =>
+    match mapM? entryInt es, mapM? entrySnd es with
+    | some vars, some pows =>
+      if !strictlyIncreasing vars then some "term: variables not strictly increasing"
+      else if pows.any isZeroVal then some "term: zero power"
+      else match nv with
+        | some n => if vars.any (fun v => v.toNat ≥ n) then some "term: variable ≥ num_vars" else none
+        | none => none
+    | _, _ => some "shape"
+  | _ => some "shape"
+
+/-- `[(var, power), …]` of a term value -/
+def termPairs : Val → List (Nat × Nat)
+  | .seq [.seq es] => es.filterMap (fun e => match e with | .seq [.int v, .int w] => some (v.toNat, w.toNat) | _ => none)
+  | _ => []
+
+/-- `Ord for SparseTerm` (poly/src/polynomial/multivariate/mod.rs:139): total degree first; then, along the
+    common prefix, the power where the variables agree, else the LOWER-numbered variable is the greater term -/
+def termZipCmp : List (Nat × Nat) → List (Nat × Nat) → Ordering
+  | (v1, p1) :: r1, (v2, p2) :: r2 =>
+    if v1 == v2 then (if p1 != p2 then compare p1 p2 else termZipCmp r1 r2)
+    else compare v2 v1
+  | _, _ => .eq
+def termCmp (a b : List (Nat × Nat)) : Ordering :=
+  let da := (a.map (·.2)).foldl (· + ·) 0
+  let db := (b.map (·.2)).foldl (· + ·) 0
+  if da == db then termZipCmp a b else compare da db
+
+def termsAscending : List (List (Nat × Nat)) → Bool
+  | a :: b :: r => termCmp a b == .lt && termsAscending (b :: r)
+  | _ => true
+
+def distinctVals : List Val → Bool
+  | [] => true
+  | v :: vs => !(vs.any (fun w => Val.beq v w)) && distinctVals vs
+
+def wfKind (p : Nat) (kind : String) (v : Val) : Option String :=
+  match kind, v with
+  | "dense", .seq [.seq cs] =>
+    match cs.getLast? with
+    | some c => if isZeroVal c then some "dense: leading coefficient zero" else none
+    | none => none
+  | "sparse", .seq [.seq es] =>
+    match mapM? entryInt es, mapM? entrySnd es with
+    | some idx, some cs =>
+      if !strictlyIncreasing idx then some "sparse: degrees not strictly increasing"
+      else if cs.any isZeroVal then some "sparse: zero coefficient" else none
+    | _, _ => some "shape"
+  | "term", t => wfTerm none t
+  | "mvsparse", .seq [.int nv, .seq ts] =>
+    match mapM? (fun t => match t with | .seq [c, tm] => some (c, tm) | _ => none) ts with
+    | some cts =>
+      match cts.findSome? (fun ct => wfTerm (some nv.toNat) ct.2) with
+      | some r => some ("mvsparse: " ++ r)
+      | none =>
+        if cts.any (fun ct => isZeroVal ct.1) then some "mvsparse: zero coefficient"
+        else if !distinctVals (cts.map (·.2)) then some "mvsparse: repeated term"
+        else if !termsAscending (cts.map (fun ct => termPairs ct.2)) then some "mvsparse: terms not in ascending order" else none
+    | none => some "shape"
+  | "dext", .seq [.seq evs, .int nv] =>
+    if nv.toNat ≥ 64 then some "dext: num_vars ≥ 64"
+    else if evs.length != 2 ^ nv.toNat then some "dext: evaluations.len() ≠ 2^num_vars" else none
+  | "sext", .seq [.seq es, .int nv, z] =>
+    match mapM? entryInt es with
+    | some ks =>
+      if !isZeroVal z then some "sext: zero ≠ 0"
+      else if nv.toNat ≥ 64 then some "sext: num_vars ≥ 64"
+      else if ks.any (fun k => k.toNat ≥ 2 ^ nv.toNat) then some "sext: index ≥ 2^num_vars" else none
+    | none => some "shape"
+  | "r2dom", .seq fs => wfDomain p false fs
+  | "mrdom", .seq fs => wfDomain p true fs
+  | "gdom", .seq [.int tag, .seq fs] => wfDomain p (tag == 1) fs
+  | "evals", .seq [.seq evs, .seq ds] =>
+    let (mixed, fs) := match ds with
+      | [.int tag, .seq fs] => (tag == 1, fs)
+      | fs => (false, fs)
+    -- a radix-2 payload under `Evaluations<F, MixedRadix…>` is judged as mixed by its own log field below
+    let mixed := mixed || (match fs with | [.int size, _, _, _, _, _, _, _, _] => stripFactor 64 size.toNat 2 != 1 | _ => false)
+    match wfDomain p mixed fs with
+    | some r => some ("evals: domain: " ++ r)
+    | none =>
+      match fs with
+      | .int size :: _ => if evs.length != size.toNat then some "evals: evals.len() ≠ domain.size" else none
+      | _ => some "shape"
+  | "fp", _ => none
+  | "-", _ => none
+  | _, _ => some "shape"
+
+/-! ### a type of either universe, as the operations the ops need -/
+
+structure Codec where
+  name : String
+  kind : String
+  enc : Compress → Val → Option (List Nat)
+  size : Compress → Val → Nat
+  dec : Compress → Validate → List Nat → R Val
+  check : Val → Bool
+  canonical : Bool
+  build : Val → Val
+  wf : Val → Option String
+
+def codecOfTy (t : Ty) : Codec where
+  name := tyName t
+  kind := ""
+  enc := encode t
+  size := size t
+  dec := fun c v bs => runDecode limits t c v bs
+  check := check t
+  canonical := canonical t
+  build := build t
+  wf := fun _ => none
+
+def codecOfPTy (p : Nat) (kind : String) (t : Poly.PTy) : Codec where
+  name := "poly-" ++ kind
+  kind := kind
+  enc := Poly.pEncode ⟨p⟩ t
+  size := Poly.pSize ⟨p⟩ t
+  dec := fun c v bs => Poly.pRunDecode limits ⟨p⟩ t c v bs
+  check := Poly.pCheck t
+  canonical := Poly.pCanonical t
+  build := Poly.pBuild t
+  wf := wfKind p kind
+
+mutual
+/-- the type without its mode-pinning wrappers (`check()` looks through them) -/
+def unpin : Ty → Ty
+  | .pin _ t => unpin t
+  | .opt t => .opt (unpin t)
+  | .tup ts => .tup (unpinAll ts)
+  | .arr n t => .arr n (unpin t)
+  | .vec k t => .vec k (unpin t)
+  | .deq k t => .deq k (unpin t)
+  | .list t => .list (unpin t)
+  | .slice t => .slice (unpin t)
+  | .map k v => .map (unpin k) (unpin v)
+  | .set t => .set (unpin t)
+  | .wrap w t => .wrap w (unpin t)
+  | .struct fs => .struct (unpinAll fs)
+  | t => t
+def unpinAll : List Ty → List Ty
+  | [] => []
+  | t :: ts => unpin t :: unpinAll ts
+end
+
+/-- the codec of the same type with the pinning wrappers removed -/
+def parseUnpinned? (s : String) : Option Codec :=
+  if s.startsWith "P" then none else (parseTy? s).map (fun t => codecOfTy (unpin t))
+
+def parseCodec? (s : String) : Option Codec :=
+  if s.startsWith "P" then
+    match s.splitOn "." with
+    | [ps, kind, tys] => do
+      let p ← parseHex? (ps.drop 1).toString
+      let t ← parsePTy? tys
+      some (codecOfPTy p kind t)
+    | _ => none
+  else (parseTy? s).map codecOfTy
+
 /-! ### the executable spec -/
 
 /-- spec for `ser`: reported size = number of bytes written; the bytes read back as the value with
     nothing left over (see `back` below for values that fail `check()`) -/
-def judgeSer (t : Ty) (c : Compress) (want : Val) (impl : String) : String :=
+def judgeSerBytes (K : Codec) (c : Compress) (want : Val) (bs : List Nat) (n : Nat) : String :=
+  if n != bs.length then "bad:size reported=" ++ hex n ++ " written=" ++ hex bs.length
+  else
+    -- reading back, in either validation mode: the value again with nothing left over; a value
+    -- that does not pass `check()` may instead be refused with `InvalidData` (under
+    -- `Validate::Yes`, or under a `…Checked` pin in any mode)
+    let back := fun (vd : Validate) =>
+      match K.dec c vd bs with
+      | .ok v s =>
+        if !s.inp.isEmpty then "bad:roundtrip-leftover"
+        else if !(Val.beq v want) then "bad:roundtrip got=" ++ showVal v
+        else "ok"
+      | .fail (.err .invalid) _ => if K.check want then "bad:valid-value-rejected" else "ok"
+      | .fail _ _ => "bad:roundtrip-fail"
+    let a := back .no
+    if a != "ok" then a
+    else
+      let b := back .yes
+      if b != "ok" then b
+      else match K.wf want with
+        -- the harness builds `ark-poly` values through the library's constructors: those must satisfy the invariants
+        | some r => "bad:constructor-output-illformed:" ++ r
+        | none => "ok"
+
+def judgeSer (K : Codec) (c : Compress) (want : Val) (impl : String) : String :=
   match impl.splitOn " " with
   | [hx, sz] =>
     match parseBytes? hx, parseHex? sz with
-    | some bs, some n =>
-      if n != bs.length then "bad:size reported=" ++ hex n ++ " written=" ++ hex bs.length
-      else
-        -- reading back, in either validation mode: the value again with nothing left over; a value
-        -- that does not pass `check()` may instead be refused with `InvalidData` (under
-        -- `Validate::Yes`, or under a `…Checked` pin in any mode)
-        let back := fun (vd : Validate) =>
-          match runDecode limits t c vd bs with
-          | .ok v s =>
-            if !s.inp.isEmpty then "bad:roundtrip-leftover"
-            else if !(Val.beq v want) then "bad:roundtrip got=" ++ showVal v
-            else "ok"
-          | .fail (.err .invalid) _ => if check t want then "bad:valid-value-rejected" else "ok"
-          | .fail _ _ => "bad:roundtrip-fail"
-        let a := back .no
-        if a != "ok" then a else back .yes
+    | some bs, some n => judgeSerBytes K c want bs n
     | _, _ => "bad:" ++ impl
   | _ => "bad:" ++ impl
 
 def evStr (e : Ev) : String := s!"n={hex e.n},esz={hex e.esz},rem={hex e.rem}"
 
 /-- spec for `de`, applied to the implementation's output -/
-def judgeDe (tag : String) (t : Ty) (c : Compress) (bs : List Nat) (evs : List Ev) (zwLoop : Bool)
+def judgeDe (tag : String) (K : Codec) (c : Compress) (vd : Validate) (bs : List Nat) (evs : List Ev) (zwLoop : Bool)
     (impl : String) : String :=
   if impl == "panic" then "bad:panic"
   -- `zwLoop`: the model met a loop over zero-width elements whose trip count comes from the length
@@ -255,18 +570,25 @@ def judgeDe (tag : String) (t : Ty) (c : Compress) (bs : List Nat) (evs : List E
         | some v, some k =>
           if k > bs.length then "bad:consumed-too-much"
           else
-            match encode t c v with
+            match K.enc c v with
             | none => "bad:ill-typed-value"
             | some re =>
               let same := re == bs.take k
-              if !same && canonical t then "bad:reencode-differs"
+              if !same && K.canonical then "bad:reencode-differs"
               else if tag == "t" then "bad:truncation-accepted"
               else if tag == "b" then "bad:invalid-accepted"
               else if tag == "o" then "bad:oversize-accepted"
               else if tag == "v" && (k != bs.length || !same) then "bad:valid-not-consumed"
               else if tag == "x" && (k ≥ bs.length || !same) then "bad:trailing-consumed"
-              else if !same then "note:noncanonical-input"
-              else "ok"
+              else match K.wf v with
+                | some r =>
+                  if tag == "v" || tag == "x" then "bad:constructor-output-illformed:" ++ r
+                  else if tag == "w" && vd == .yes then "bad:illformed-accepted:" ++ r
+                  else "note:illformed-accepted:" ++ r
+                | none =>
+                  if tag == "w" then "bad:w-corpus-is-wellformed"
+                  else if !same then "note:noncanonical-input"
+                  else "ok"
         | _, _ => "bad:" ++ impl
       | [e] =>
         if e == "err:io" || e == "err:invalid" || e == "err:notenough" || e == "err:flags" then
@@ -277,34 +599,164 @@ def judgeDe (tag : String) (t : Ty) (c : Compress) (bs : List Nat) (evs : List E
         else "bad:" ++ impl
       | _ => "bad:" ++ impl
 
+def parseMode? (mode : String) : Option (Compress × Validate) :=
+  match mode.toList with
+  | [a, b] => do let c ← parseC? a; let v ← parseV? b; pure (c, v)
+  | _ => none
+
+/-- model output and failure class of a deserialiser run -/
+def deOut (bs : List Nat) (r : R Val) : String × String :=
+  let evs := (R.state r).evs
+  let (m, cls) := match r with
+    | .ok v s => ("ok " ++ showVal v ++ " " ++ hex (bs.length - s.inp.length), "ok")
+    | .fail (.err e) _ => (errStr e, errStr e)
+    | .fail .panic _ => ("panic", "panic")
+    | .fail .abort _ => ("abort", "abort")
+    | .fail .hang _ => ("any:hang", "hang")
+  (if grayZone limits evs && !(m.startsWith "any") then "any:" ++ m else m, cls)
+
+def okStr (b : Bool) : String := if b then "ok" else "err:invalid"
+
+/-- spec of `chk` / `bchk`: a value passes `check()` iff (pinning wrappers aside) it can be written and
+    read back in checked mode -/
+def specValid (K : Codec) (K0 : Codec) (v : Val) : Option Bool :=
+  let _ := K
+  match K0.enc .yes v with
+  | some bs => (match K0.dec .yes .yes bs with | .ok _ _ => some true | .fail (.err .invalid) _ => some false | _ => none)
+  | none => none
+
+/-- `buffer_byte_size` / `buffer_bit_byte_size`: `⌈bits/8⌉` -/
+def bbsStr (bits : Nat) : String :=
+  let bytes := (bits + 7) / 8
+  hex (8 * bytes) ++ " " ++ hex bytes ++ " " ++ hex bytes
+
 /-- returns (model output, verdict of the spec on the implementation's output) -/
 def run (op : String) (args : List String) (impl : String) : Option (String × String) := do
   match op, args with
   | "ser", [cs, tys, vals] =>
     let c ← match cs.toList with | [ch] => parseC? ch | _ => none
-    let t ← parseTy? tys
+    let K ← parseCodec? tys
     let v0 ← parseVal? vals
-    let v := build t v0
-    let m := match encode t c v with
-      | some bs => bytesHex bs ++ " " ++ hex (size t c v)
+    let v := K.build v0
+    let m := match K.enc c v with
+      | some bs => bytesHex bs ++ " " ++ hex (K.size c v)
       | none => "ill-typed"
-    some (m ++ " @ser:" ++ tyName t, judgeSer t c v impl)
+    some (m ++ " @ser:" ++ K.name, judgeSer K c v impl)
   | "de", [tag, mode, tys, hx] =>
-    let (c, vd) ← match mode.toList with
-      | [a, b] => do let c ← parseC? a; let v ← parseV? b; pure (c, v)
-      | _ => none
-    let t ← parseTy? tys
+    let (c, vd) ← parseMode? mode
+    let K ← parseCodec? tys
     let bs ← parseBytes? hx
-    let r := runDecode limits t c vd bs
-    let evs := (R.state r).evs
-    let (m, cls) := match r with
-      | .ok v s => ("ok " ++ showVal v ++ " " ++ hex (bs.length - s.inp.length), "ok")
-      | .fail (.err e) _ => (errStr e, errStr e)
-      | .fail .panic _ => ("panic", "panic")
-      | .fail .abort _ => ("abort", "abort")
-      | .fail .hang _ => ("any:hang", "hang")
-    let m := if grayZone limits evs && !(m.startsWith "any") then "any:" ++ m else m
-    some (m ++ " @de-" ++ tag ++ ":" ++ cls, judgeDe tag t c bs evs (cls == "hang") impl)
+    let r := K.dec c vd bs
+    let (m, cls) := deOut bs r
+    some (m ++ " @de-" ++ tag ++ ":" ++ cls, judgeDe tag K c vd bs (R.state r).evs (cls == "hang") impl)
+  -- the four convenience methods: `deserialize_compressed` = (Yes, Yes), `…_unchecked` = (Yes, No), …
+  | "cde", [tag, mode, tys, hx] =>
+    let (c, vd) ← parseMode? mode
+    let K ← parseCodec? tys
+    let bs ← parseBytes? hx
+    let r := K.dec c vd bs
+    let (m, cls) := deOut bs r
+    some (m ++ " @cde-" ++ tag ++ ":" ++ cls, judgeDe tag K c vd bs (R.state r).evs (cls == "hang") impl)
+  -- a reader that breaks after `k` bytes behaves like the `k`-byte prefix; `Interrupted` is retried
+  | "rfail", [fl, vtag, mode, tys, hx, ks, _chunk] =>
+    let (c, vd) ← parseMode? mode
+    let K ← parseCodec? tys
+    let bs ← parseBytes? hx
+    let k ← parseHex? ks
+    let inp := if fl == "i" then bs else bs.take k
+    let r := K.dec c vd inp
+    let (m, cls) := deOut inp r
+    -- spec: the complete encoding of a valid value is read back; anything shorter that the format cannot
+    -- delimit is an `IoError` (judged as a truncation `t`); never a panic
+    let tag := if inp.length == bs.length then vtag else "m"
+    let v := judgeDe tag K c vd inp (R.state r).evs (cls == "hang") impl
+    let v := if tag == "m" && v == "ok" && cls == "err:io" && impl != "err:io" then "bad:want=err:io" else v
+    some (m ++ " @rfail-" ++ fl ++ ":" ++ cls, v)
+  | "cser", [tys, vals] =>
+    let K ← parseCodec? tys
+    let v := K.build (← parseVal? vals)
+    let half := fun (c : Compress) => match K.enc c v with
+      | some bs => bytesHex bs ++ " " ++ hex (K.size c v)
+      | none => "ill-typed"
+    let verdict := match impl.splitOn " " with
+      | [h1, s1, h2, s2] =>
+        match parseBytes? h1, parseHex? s1, parseBytes? h2, parseHex? s2 with
+        | some b1, some n1, some b2, some n2 =>
+          let a := judgeSerBytes K .yes v b1 n1
+          if a != "ok" then "c:" ++ a else
+          let b := judgeSerBytes K .no v b2 n2
+          if b != "ok" then "u:" ++ b else "ok"
+        | _, _, _, _ => "bad:" ++ impl
+      | _ => "bad:" ++ impl
+    some (half .yes ++ " " ++ half .no ++ " @cser:" ++ K.name, verdict)
+  | "hash", [cs, tys, vals] =>
+    let c ← match cs.toList with | [ch] => parseC? ch | _ => none
+    let K ← parseCodec? tys
+    let v := K.build (← parseVal? vals)
+    let m := match K.enc c v with
+      | some bs => String.join ((Ark.Sha256.sha256 bs).map byteHex)
+      | none => "ill-typed"
+    -- spec: SHA-256 of a byte string that reads back (in this mode) as the value
+    some (m ++ " @hash:" ++ K.name, if impl == m then "ok" else "bad:want=" ++ m)
+  | "chk", [tys, vals] =>
+    let K ← parseCodec? tys
+    let v := K.build (← parseVal? vals)
+    let m := okStr (K.check v)
+    let K0 := (parseUnpinned? tys).getD K
+    let want := match specValid K K0 v with | some b => okStr b | none => "?"
+    some (m ++ " @chk:" ++ K.name, if impl == want then "ok" else "bad:want=" ++ want)
+  | "bchk", [tys, vals] =>
+    let K ← parseCodec? tys
+    let vs ← match ← parseVal? vals with | .seq vs => some vs | _ => none
+    let vs := vs.map K.build
+    let m := okStr (vs.all K.check)
+    let K0 := (parseUnpinned? tys).getD K
+    let want := okStr (vs.all (fun v => specValid K K0 v == some true))
+    some (m ++ " @bchk:" ++ K.name, if impl == want then "ok" else "bad:want=" ++ want)
+  | "wfail", [fl, cs, tys, vals, ks] =>
+    let c ← match cs.toList with | [ch] => parseC? ch | _ => none
+    let K ← parseCodec? tys
+    let v := K.build (← parseVal? vals)
+    let k ← parseHex? ks
+    let bs ← K.enc c v
+    let (written, failed) := encodeInto k bs
+    let m := (if failed then "err:io " else "ok ") ++ bytesHex written
+    -- spec: `Ok` iff the writer took the whole encoding; otherwise `IoError` and what was handed over is a
+    -- prefix of the encoding, as long as the writer's capacity
+    let verdict :=
+      if impl == "panic" then "bad:panic" else
+      match impl.splitOn " " with
+      | [st, hx] =>
+        match parseBytes? hx with
+        | some w =>
+          if w != bs.take w.length then "bad:not-a-prefix"
+          else if st == "ok" then (if w == bs then "ok" else "bad:ok-but-incomplete")
+          else if st == "err:io" then (if k ≥ bs.length then "bad:error-with-room" else if w.length != k then "bad:written≠capacity" else "ok")
+          else "bad:error-class"
+        | none => "bad:" ++ impl
+      | _ => "bad:" ++ impl
+    some (m ++ " @wfail-" ++ fl ++ ":" ++ (if failed then "err" else "ok"), verdict)
+  | "tovec", [tys, vals] =>
+    let K ← parseCodec? tys
+    let v := K.build (← parseVal? vals)
+    -- as coded: every item through `serialize_uncompressed`
+    let m := match K.enc .no v with | some bs => bytesHex bs | none => "ill-typed"
+    -- as documented: "identical to the value of `buf` after `(a, b, c, d, e).serialize_compressed(&mut buf)`"
+    let want := match K.enc .yes v with | some bs => bytesHex bs | none => "ill-typed"
+    some (m ++ " @tovec", if impl == want then "ok" else "bad:doc-says-compressed want=" ++ want)
+  | "bbs", [bits] =>
+    let b ← parseHex? bits
+    let m := bbsStr b
+    some (m, if impl == m then "ok" else "bad:want=" ++ m)
+  | "puse", [what, tys, hx] =>
+    let K ← parseCodec? tys
+    let bs ← parseBytes? hx
+    -- the methods themselves are modelled elsewhere (C07, C08, C17) for well-formed values only: the model
+    -- output is not compared; the verdict is about the implementation: having accepted the bytes under
+    -- `Validate::Yes`, a total public method must not panic
+    let acc := match K.dec .yes .yes bs with | .ok v _ => (K.wf v).getD "well-formed" | _ => "rejected"
+    some ("any:unmodelled " ++ what ++ " @puse:" ++ acc,
+      if impl == "panic" then "bad:panic-after-accepting-illformed:" ++ acc else "ok")
   | _, _ => none
 
 end Ark.DrvC18
